@@ -21,6 +21,7 @@ import contextlib
 import copy
 import hashlib
 import http.client
+import io
 import json
 import threading
 import time
@@ -176,7 +177,12 @@ def _read_chunk(response):
     # Workaround for https://github.com/urllib3/urllib3/issues/1540
     # We also can't use the workaround if the content is encoded (e.g.
     # gzip compressed) because that's decoded in urllib3, not httplib.
-    if ('Content-encoding' not in response.headers
+    if getattr(data, 'chunked', False):
+        # With chunked transfer encoding urllib3 only undoes the chunk framing when asked to stream,
+        # while a plain read() leaves that (and noticing a truncated body) to httplib. Mixing the two,
+        # as the code below would, derails the response. These responses are rare: read them in one go.
+        fp = io.BytesIO(data.read())
+    elif ('Content-encoding' not in response.headers
             and hasattr(data, '_fp')
             and hasattr(data._fp, 'readinto')):
         fp = data._fp
